@@ -99,6 +99,10 @@ pub(crate) enum Scn {
     MatchedBlocksProof,
     MatchedBlocks,
     FetchProofs,
+    /// fetch requests outstanding, the peer switched to the fork branch and announced its new
+    /// last state: the pending answers are "my tip changed" answers whose last header IS the
+    /// last state the client has on record for the peer
+    FetchNewTip,
     CheckPoints,
     FilterHashes,
     Filters,
@@ -106,7 +110,7 @@ pub(crate) enum Scn {
     UnminedProof,
 }
 
-pub(crate) const ALL_SCN: [Scn; 14] = [
+pub(crate) const ALL_SCN: [Scn; 15] = [
     Scn::NoPeer,
     Scn::Connected,
     Scn::FirstProof,
@@ -118,6 +122,7 @@ pub(crate) const ALL_SCN: [Scn; 14] = [
     Scn::MatchedBlocksProof,
     Scn::MatchedBlocks,
     Scn::FetchProofs,
+    Scn::FetchNewTip,
     Scn::CheckPoints,
     Scn::FilterHashes,
     Scn::Filters,
@@ -253,6 +258,24 @@ pub(crate) fn try_build_with(env: &Env, w: &Worlds, p: &Params, scn: Scn, old: O
             sim.cm().tick_lc(1);
             sim.pump_out();
             let n = sim.queue.len();
+            return Ok((sim, n));
+        }
+        Scn::FetchNewTip => {
+            assert!(scen::prove_peer(&mut sim, 1));
+            sim.queue.clear();
+            let h6: H256 = w.main.blocks[6].hash().unpack();
+            let tx7: H256 = w.main.blocks[7].transactions()[1].hash().unpack();
+            let _ = sim.c().rpc_chain().fetch_header(h6);
+            let _ = sim.c().rpc_tx().fetch_transaction(tx7);
+            sim.cm().tick_lc(1);
+            // the requests are on their way; the peer reorganises to the fork branch (which does
+            // not contain the requested last block), announces, and answers from its new view
+            sim.set_view(1, 1, p.fork_tip, true);
+            sim.pump_out();
+            let i = sim.queue.iter().position(|m| kind_of(m) == "SendLastState").expect("announcement queued");
+            sim.deliver(i);
+            let n = sim.queue.iter().take_while(|m| matches!(kind_of(m).as_str(), "SendBlocksProof" | "SendTransactionsProof")).count();
+            assert!(n >= 2, "new-tip answers pending (machinery)");
             return Ok((sim, n));
         }
         Scn::CheckPoints => {
